@@ -241,6 +241,11 @@ func checkC17(c C17Case) (o Outcome) {
 			o.Viol = viol("session-differs", "after accepted input %d (%q): the session's %s differs between the runs:\n plain %+v\n with refused %+v", r.base, r.in, d, a.After, b.After)
 			return
 		}
+		if c.Mode.Kind != "long" && b.After != nil && snapshotHasInvalidUTF8(b.After) && tolerate("F-C07-1") {
+			// a cached value that is not valid UTF-8 cannot be loaded again (F-C07-1)
+			o.Tolerated = append(o.Tolerated, "F-C07-1")
+			return
+		}
 		prev = b.After
 		if nRefused > 0 && pendingAfterHalt {
 			followed = true
